@@ -5,6 +5,7 @@ import (
 	"io"
 	"net/http"
 	"net/http/httptest"
+	"os"
 	"regexp"
 	"strconv"
 	"strings"
@@ -36,7 +37,8 @@ func (l *simLogger) Trace(m string) {
 }
 func (l *simLogger) Error(m string) {
 	if echoLines {
-		l.s.obs("gwerr", m)
+		// not an observation: the echo must not change the log hash
+		fmt.Fprintf(os.Stderr, "%04d %-10s %s\n", l.s.Step, "gwerr", m)
 	}
 	l.s.mu.Lock()
 	l.s.errLog = append(l.s.errLog, l.s.canonLocked(m))
